@@ -359,10 +359,15 @@ Proof. unfold lru_find. intros H. apply find_some in H as [H1 H2]. apply keqb_sp
 Lemma find_key_none k (it : list item) : lru_find keqb k it = None -> forall e, In e it -> keqb (fst e) k = false.
 Proof. unfold lru_find. intros H e He. exact (find_none _ _ H e He). Qed.
 
-Lemma lru_set_none k v (it : list item) : lru_find keqb k it = None -> lru_set keqb k v it = it ++ [(k, v)].
+Lemma filter_all_true {X} (g : X -> bool) l : (forall x, In x l -> g x = true) -> filter g l = l.
 Proof.
-  intros H. unfold lru_set. destruct (existsb (fun e : item => keqb (fst e) k) it) eqn:E; auto.
-  apply existsb_exists in E as (x & Hx & Ex). rewrite (find_key_none k it H x Hx) in Ex. discriminate.
+  induction l as [|x l IH]; cbn; intros H; auto. rewrite (H x (or_introl eq_refl)). f_equal. apply IH. intros y Hy. apply H. right. exact Hy.
+Qed.
+
+Lemma lru_put_none k v (it : list item) : lru_find keqb k it = None -> lru_put keqb k v it = it ++ [(k, v)].
+Proof.
+  intros H. unfold lru_put, lru_remove. rewrite filter_all_true; auto.
+  intros x Hx. rewrite (find_key_none k it H x Hx). reflexivity.
 Qed.
 
 Lemma lu_other (tr : list outcome) (o : outcome) (e : item) : keqb (fst e) (key (o_arg o)) = false -> lastuse (fst e) (tr ++ [o]) = lastuse (fst e) tr.
@@ -437,7 +442,7 @@ Proof.
         -- right. exists ks. split; auto. split; auto. intros k' Hk'. specialize (Hlt k' Hk').
            rewrite (last_use_snoc k2). change (keqb (key (o_arg o)) k2) with (keqb k k2). rewrite Ekk. pose proof (last_use_mono k' tr o). lia.
   - (* miss *)
-    pose proof (find_key_none k live Ef) as Hne. rewrite (lru_set_none _ _ _ Ef). cbn [fst snd l_items l_calls].
+    pose proof (find_key_none k live Ef) as Hne. rewrite (lru_put_none _ _ _ Ef). cbn [fst snd l_items l_calls].
     set (r := f a (l_calls s)). set (o := mkO a now false r).
     assert (Hord : StronglySorted (lu_lt (tr ++ [o])) (live ++ [(k, (now, r))])).
     { apply order_snoc; auto. }
@@ -588,7 +593,7 @@ Proof.
   unfold lru_call in *. fold live in Hmiss |- *.
   destruct (lru_find keqb (key a) live) as [e|] eqn:Ef.
   { apply find_key_some in Ef as [Hin _]. apply live_in in Hin as [_ Hfr]. rewrite Hfr in Hmiss. discriminate. }
-  rewrite (lru_set_none _ _ _ Ef). cbn [fst l_items]. destruct live as [|v rest] eqn:El; [cbn in Hlen; lia|].
+  rewrite (lru_put_none _ _ _ Ef). cbn [fst l_items]. destruct live as [|v rest] eqn:El; [cbn in Hlen; lia|].
   exists v, rest. split; auto. split.
   - unfold lru_trim. rewrite app_length. cbn [length] in *.
     assert (E : Nat.ltb mx (S (length rest) + 1) = true) by (apply Nat.ltb_lt; lia). rewrite E. reflexivity.
